@@ -14,11 +14,14 @@ for p in sorted(glob.glob('/verif/seeded/*-r2-m*/meta.json')):
     n+=1
     if by and not by.startswith('filled') and by not in ('none','-'): c+=1
     rows.append('| %s | %s | %s | %s |'%(m['id'],first,by,added or '-'))
-s=open('/verif/DESIGN.md').read()
-a=s.index('| change | what it does | caught by | what had to be added first |')
-b=s.index('\n\n',a)
-hdr='| change | what it does | caught by | what had to be added first |\n|---|---|---|---|\n'
-s=s[:a]+hdr+'\n'.join(rows)+s[b:]
-s=re.sub(r'\(`detected_by` / `detection_note` in each `meta.json`; [^)]*\)','(`detected_by` / `detection_note` in each `meta.json`; %d of %d caught so far)'%(c,n),s)
-open('/verif/DESIGN.md','w').write(s)
+for target in ('/verif/tools/design_findings.tmpl','/verif/DESIGN.md'):
+    s=open(target).read()
+    if '| change | what it does | caught by | what had to be added first |' not in s:
+        continue
+    a=s.index('| change | what it does | caught by | what had to be added first |')
+    b=s.index('\n\n',a)
+    hdr='| change | what it does | caught by | what had to be added first |\n|---|---|---|---|\n'
+    s=s[:a]+hdr+'\n'.join(rows)+s[b:]
+    s=re.sub(r'\(`detected_by` / `detection_note` in each `meta.json`; [^)]*\)','(`detected_by` / `detection_note` in each `meta.json`; %d of %d caught)'%(c,n),s)
+    open(target,'w').write(s)
 print(n,c)
